@@ -25,7 +25,8 @@ import os
 
 from ..core import AnalysisError, norm, short
 from ..loader import ClassInfo
-from .. import protocol
+from .. import protocol, diffcon
+from ..cfg import expand_conds
 from .common import (cfg_of, fkey, conds, has_cond, cond_texts, stmts_of, walk_body, call_tail, call_name,
                      returns_of, handler_reraises_always, stmt_of, names_loaded, isinstance_test)
 
@@ -123,6 +124,8 @@ def run(rep):
         n_funcs += 1
         mod = fi.mod
         nd = next_derived(fi)
+        loc = diffcon.Locals(fi.node, cfg_of(fi), keep=nd)
+        rconds = lambda n: expand_conds(loc.conds(conds(fi, n), mod))     # named temporaries in tests looked through
         # --- R15.a
         accesses = [n for n in walk_body(fi.node) if isinstance(n, ast.Attribute) and isinstance(n.value, ast.Name)
                     and n.value.id in nd]
@@ -131,7 +134,7 @@ def run(rep):
             var, attr = a.value.id, a.attr
             if attr in flow_names:
                 continue
-            cs = conds(fi, a)
+            cs = rconds(a)
             definers = resp_attrs.get(attr, [])
             guarded = False
             for t, p in cs:
@@ -181,14 +184,25 @@ def run(rep):
             if isinstance(n, ast.Call) and isinstance(n.func, ast.Attribute) and n.func.attr in BODY_CALLS \
                     and isinstance(n.func.value, ast.Name) and n.func.value.id in nd:
                 muts.append(n)
-        for mu in muts:
-            cs = conds(fi, mu)
-            req_tests = [(t, p) for t, p in cs if 'request' in names_loaded(t)]
+        mut_stmts = [stmt_of(mod, mu) for mu in muts]
+        mut_nodes = set(cfg.nodes_of_all(mut_stmts))
+        for mu, mst in zip(muts, mut_stmts):
+            # a dominating branch whose test reads the request (directly, through a named temporary or through a flag
+            # set under such tests) and whose *other* side lets the next() value through to a return untouched
+            req_tests = []
+            at = [n for n in cfg.nodes_of(mst) if cfg.reachable(n)]
+            for t, p in cfg.conds_at_stmt(mst, expand=False):
+                der = loc.conds(cfg._expand_named(expand_conds([(t, p)]), at[0]) if at else [(t, p)], mod)
+                if not any('request' in names_loaded(x) for x, _ in der):
+                    continue
+                other = cfg.branch_nodes(t, not p)
+                if cfg.exit in cfg.reach(other, avoid=mut_nodes, normal_only=True):
+                    req_tests.append((t, p))
             ok = bool(req_tests)
             rep.check('R15.b', fkey(fi, 'mutates ' + norm(mu.func if isinstance(mu, ast.Call) else mu)), ok,
                       'body/status mutation happens only under a test on the request: %s' % '; '.join(cond_texts(req_tests)) if ok else
-                      'body/status of the next() result is modified without any dominating test on the request '
-                      '(every response would change)', mod, mu)
+                      'body/status of the next() result is modified without any dominating test on the request that lets other '
+                      'requests pass through untouched (every response would change)', mod, mu)
         # --- R15.b request body untouched: parsing the form consumes wsgi.input, so the endpoint would no longer
         #     see the raw body (table entry: PostDataMiddleware exists to read the form)
         BODY_READERS = {'form', 'values', 'files', 'stream', 'data', 'json', 'get_data', 'get_json', 'input_stream'}
@@ -241,6 +255,7 @@ def run(rep):
     gz = repo.mod('clastic.middleware.compress').func('GzipMiddleware.request')
     cfg = cfg_of(gz)
     nd = next_derived(gz)
+    L = diffcon.Locals(gz.node, cfg, keep=nd)
     stores = {}
     for s in stmts_of(gz.node):
         if isinstance(s, ast.Assign) and len(s.targets) == 1 and isinstance(s.targets[0], ast.Attribute) \
@@ -249,39 +264,43 @@ def run(rep):
     if 'response' not in stores:
         raise AnalysisError('GzipMiddleware.request no longer replaces resp.response')
     body_st = stores['response'][0]
-    comp_names = [n.id for n in ast.walk(body_st.value) if isinstance(n, ast.Name)]
-    comp = comp_names[0] if len(comp_names) == 1 else None
+    # the value that becomes the body: the single element of the stored iterable, named temporaries looked through
+    bv = body_st.value
+    comp_e = bv.elts[0] if isinstance(bv, (ast.List, ast.Tuple)) and len(bv.elts) == 1 and not isinstance(bv.elts[0], ast.Starred) else None
+    comp_r = L.resolve(comp_e, body_st) if comp_e is not None else None
+    comp = norm(comp_r) if comp_r is not None else None
     for attr, want in (('content_length', None), ('content_encoding', 'gzip')):
         sts = stores.get(attr, [])
         nodes = cfg.nodes_of_all(sts)
         ok = bool(sts) and (cfg.must_pass(nodes, cfg.nodes_of(body_st), [cfg.exit]) or
                             cfg.must_pass(nodes, cfg.entry, cfg.nodes_of(body_st)))
         if ok and attr == 'content_length':
-            v = sts[0].value
-            ok = isinstance(v, ast.Call) and call_name(v) == 'len' and comp is not None and norm(v.args[0]) == comp
-            detail = 'Content-Length is len(%s), the value stored as body' % comp
+            for st_ in sts:
+                v = L.resolve(st_.value, st_)
+                ok = ok and isinstance(v, ast.Call) and call_name(v) == 'len' and len(v.args) == 1 and comp is not None and norm(v.args[0]) == comp
+            detail = 'Content-Length is len(%s), the value stored as body' % short(comp_e)
         elif ok:
-            v = sts[0].value
-            ok = isinstance(v, ast.Constant) and v.value == want
+            for st_ in sts:
+                ok = ok and repo.try_fold(L.resolve(st_.value, st_), gz.mod) == want
             detail = "Content-Encoding is set to 'gzip' wherever the body is replaced"
         rep.check('R15.d', fkey(gz, 'resp.%s' % attr), ok, detail if ok else
                   'replacing the body is not always accompanied by a matching %s assignment' % attr, gz.mod,
                   sts[0] if sts else body_st)
     # compressed value provenance
-    src = [s for s in stmts_of(gz.node) if isinstance(s, ast.Assign) and comp and norm(s.targets[0]) == comp]
-    ok = len(src) == 1 and isinstance(src[0].value, ast.Call) and call_tail(src[0].value) == 'gzip_bytes' and \
-        src[0].value.args and isinstance(src[0].value.args[0], ast.Attribute) and src[0].value.args[0].attr == 'data' and \
-        isinstance(src[0].value.args[0].value, ast.Name) and src[0].value.args[0].value.id in nd
+    data_of = lambda e: (isinstance(e, ast.Attribute) and e.attr == 'data' and isinstance(e.value, ast.Name) and e.value.id in nd) or \
+        (isinstance(e, ast.Call) and isinstance(e.func, ast.Attribute) and e.func.attr == 'get_data' and not e.args and not e.keywords
+         and isinstance(e.func.value, ast.Name) and e.func.value.id in nd)
+    ok = isinstance(comp_r, ast.Call) and call_tail(comp_r) == 'gzip_bytes' and bool(comp_r.args) and data_of(comp_r.args[0])
     rep.check('R15.d', fkey(gz, 'compressed value'), ok, 'body is gzip_bytes(<next() result>.data, ...)' if ok else
-              'the replacement body is not gzip_bytes of the original data', gz.mod, src[0] if src else body_st)
+              'the replacement body is not gzip_bytes of the original data', gz.mod, body_st)
     # the body is replaced only if the client accepts gzip and no encoding is present yet
-    cs = conds(gz, body_st)
+    cs = expand_conds(L.conds(conds(gz, body_st), gz.mod))
 
     def acc(t):
         """a *quality* test of gzip in Accept-Encoding: accept_encodings['gzip'] / .quality('gzip') (q=0 means refused);
         plain membership ('gzip' in accept_encodings) is true for 'gzip;q=0' and is not accepted here"""
         for n in ast.walk(t):
-            if isinstance(n, ast.Subscript) and 'accept_encodings' in norm(n.value) and isinstance(n.slice, ast.Constant) and n.slice.value == 'gzip':
+            if isinstance(n, ast.Subscript) and 'accept_encodings' in norm(n.value) and repo.try_fold(n.slice, gz.mod) == 'gzip':
                 return True
             if isinstance(n, ast.Call) and isinstance(n.func, ast.Attribute) and n.func.attr in ('quality', 'best_match', 'find') and \
                     'accept_encodings' in norm(n.func.value) and "'gzip'" in norm(n):
@@ -296,30 +315,44 @@ def run(rep):
                 neg_ok = neg_ok or p is True
             elif isinstance(t, ast.BoolOp) and isinstance(t.op, ast.Or) and p is False:
                 neg_ok = neg_ok or any(isinstance(v, ast.UnaryOp) and isinstance(v.op, ast.Not) and acc(v.operand) for v in t.values)
-    from ..cfg import expand_conds
-    neg_ok = neg_ok or any(acc(t) and p is True and not isinstance(t, ast.BoolOp) for t, p in expand_conds(cs))
+    neg_ok = neg_ok or any(acc(t) and p is True and not isinstance(t, ast.BoolOp) for t, p in cs)
     rep.check('R15.d', fkey(gz, 'accept-encoding guard'), ok and neg_ok,
               'body replaced only when request.accept_encodings[\'gzip\'] is truthy' if ok and neg_ok else
               'body replacement is not conditioned on the client accepting gzip', gz.mod, body_st)
-    ce = lambda t: isinstance(t, ast.Attribute) and t.attr == 'content_encoding'
-    ok = any(ce(t) and p is False for t, p in expand_conds(cs))
+    ce = lambda t: isinstance(t, ast.Attribute) and t.attr == 'content_encoding' and isinstance(t.value, ast.Name) and t.value.id in nd
+    ok = any(ce(t) and p is False for t, p in cs)
     rep.check('R15.d', fkey(gz, 'no double encoding'), ok, 'already-encoded responses are left alone' if ok else
               'responses that already carry a Content-Encoding can be compressed again', gz.mod, body_st)
-    # never grow the body
-    ok = any(isinstance(t, ast.Compare) and isinstance(t.ops[0], (ast.GtE, ast.Gt, ast.Lt, ast.LtE)) and 'len' in norm(t)
-             for t, p in cs)
+    # never grow the body: the path condition entails len(<compressed>) <= len(<original data>); a size comparison
+    # over other operands is accepted as long as the facts do not say the opposite
+    facts = diffcon.facts_from_conds(cs)
+    size_cmp = [t for t, p in cs if isinstance(t, ast.Compare) and isinstance(t.ops[0], (ast.GtE, ast.Gt, ast.Lt, ast.LtE)) and 'len(' in norm(t)]
+    ok = bool(size_cmp)
+    if ok and comp is not None and isinstance(comp_r, ast.Call) and comp_r.args:
+        small, big = 'len(%s)' % comp, 'len(%s)' % norm(comp_r.args[0])
+        if not diffcon.entails(facts, (small, big, False)) and diffcon.entails(facts, (big, small, True)):
+            ok = False
     rep.check('R15.d', fkey(gz, 'size guard'), ok, 'compressed body is used only if it is smaller' if ok else
-              'no size comparison guards the replacement', gz.mod, body_st)
+              'no size comparison guards the replacement (or it selects the larger body)', gz.mod, body_st)
     # streamed responses untouched
-    ok = any(isinstance(t, ast.Attribute) and t.attr == 'is_streamed' and p is False for t, p in expand_conds(cs))
+    ok = any(isinstance(t, ast.Attribute) and t.attr == 'is_streamed' and p is False for t, p in cs)
     rep.check('R15.d', fkey(gz, 'streamed'), ok, 'streamed responses are not buffered/compressed' if ok else
               'streamed responses are no longer exempt', gz.mod, body_st)
-    # Vary
-    vary = [s for s in stmts_of(gz.node) if isinstance(s, ast.Expr) and isinstance(s.value, ast.Call)
-            and norm(s.value.func).endswith('.vary.add') and s.value.args and isinstance(s.value.args[0], ast.Constant)
-            and s.value.args[0].value.lower() == 'accept-encoding']
-    acc_ifs = [s for s in stmts_of(gz.node) if isinstance(s, ast.If) and acc(s.test)]
-    ok = bool(vary) and bool(acc_ifs) and all(cfg.must_pass(cfg.nodes_of_all(vary), cfg.entry, cfg.nodes_of(i)) for i in acc_ifs)
+    # Vary: on every path on which Accept-Encoding is inspected, Vary: Accept-Encoding has been added before, or is added afterwards
+    def is_vary(s):
+        if not (isinstance(s, ast.Expr) and isinstance(s.value, ast.Call) and isinstance(s.value.func, ast.Attribute)
+                and s.value.func.attr == 'add' and len(s.value.args) == 1):
+            return False
+        recv = L.resolve(s.value.func.value, s)
+        v = repo.try_fold(L.resolve(s.value.args[0], s), gz.mod)
+        return isinstance(recv, ast.Attribute) and recv.attr == 'vary' and isinstance(recv.value, ast.Name) and recv.value.id in nd \
+            and isinstance(v, str) and v.lower() == 'accept-encoding'
+    vary = [s for s in stmts_of(gz.node) if is_vary(s)]
+    vary_nodes = cfg.nodes_of_all(vary)
+    acc_sts = [s for s in stmts_of(gz.node) if any(isinstance(x, ast.expr) and acc(x) for x in diffcon._header_nodes(s)
+                                                    if isinstance(x, (ast.Subscript, ast.Call)))]
+    ok = bool(vary) and bool(acc_sts) and all(cfg.must_pass(vary_nodes, cfg.entry, cfg.nodes_of(i)) or
+                                               cfg.must_pass(vary_nodes, cfg.nodes_of(i), [cfg.exit]) for i in acc_sts)
     rep.check('R15.d', fkey(gz, 'Vary'), ok, "Vary: Accept-Encoding is added before the response is made to depend on the header" if ok else
               'Vary: Accept-Encoding is not added on every path that inspects Accept-Encoding', gz.mod,
               vary[0] if vary else gz.node)
